@@ -112,8 +112,8 @@ fn classify_compile(item: &Item, res: &CaseResult) -> Option<String> {
     if f.has("id_var") && item.base.case.opts.normalization_rust && text.contains("`Id`") {
         return Some("id-variable-rust-normalization".into());
     }
-    if f.has("typename_only_concrete") {
-        return None;
+    if f.has("double_variant") && (codes.contains("E0124") || codes.contains("E0428")) {
+        return Some("double-variant-selection-does-not-build".into());
     }
     None
 }
@@ -344,6 +344,15 @@ pub fn run(report: &mut Report, replay: Option<&Value>) {
             .filter(|it| it.base.features.has("id_var") && it.base.case.opts.normalization_rust)
             .collect();
         report.count_extra("probe_cases_id-variable-rust-normalization", items.len() as u64);
+        run_items(report, "c02", &items, &hooks);
+    }
+    {
+        // D17: two selections for one variant type under an abstract parent
+        let mut c = cfg.clone();
+        c.gen.fam_double_variant = true;
+        let tapes = sample_tapes(report.seed, 0xC02D, n_probe * 2, 3072);
+        let items: Vec<Item> = tapes.iter().flat_map(|tp| build_items(tp, &c, &mut stats, &|_| false, false)).filter(|it| it.base.features.has("double_variant")).take(30).collect();
+        report.count_extra("probe_cases_double-variant-selection-does-not-build", items.len() as u64);
         run_items(report, "c02", &items, &hooks);
     }
     {
